@@ -123,9 +123,10 @@ def handleDoc (l : Line) : Option (List String) := do
     | some d =>
       if !fillOk d.fill then pure ["any"] else
       let rank := (regularRank d.chunkGrid).getD d.shape.length
-      if !(structOk d rank) then pure ["rej-open"] else
+      if !(openOk d rank) then pure ["rej-open"] else
       let toks := outTokens l.outcome
-      let plugOk := (l.get "plug") == some "ok"
+      -- a valid document whose only change is a list of skippable storage transformers must still open
+      let plugOk := (l.get "plug") == some "ok" || ((l.get "mut") == some "storage_transformers" && (l.get "base") == some "ok" && !d.st.isEmpty)
       if l.outcome == "rej-open" then
         pure [if plugOk then "ok (document built from valid parts must open)" else "rej-open"]
       else
